@@ -95,6 +95,14 @@ public:
         setSocketState(QAbstractSocket::ConnectedState);
     }
     void down() { setSocketState(QAbstractSocket::UnconnectedState); }
+    // as QSslSocket does once the close has been flushed: the state changes and disconnected() is emitted synchronously, from
+    // inside the call (so the order of the statements around socket.disconnectFromHost() in the client is observable)
+    void disconnectFromHost() override
+    {
+        if (state() != QAbstractSocket::ConnectedState) return;
+        setSocketState(QAbstractSocket::UnconnectedState);
+        Q_EMIT disconnected();
+    }
 
 protected:
     qint64 writeData(const char *d, qint64 n) override
@@ -151,7 +159,11 @@ public:
     {
         fs->setParent(d->stream);
         d->stream->d->socket.setSocket(fs);
+        // what the stream's constructor connects for the socket it creates itself
+        connect(fs, &QAbstractSocket::disconnected, d->stream, &QXmppOutgoingClient::_q_socketDisconnected);
     }
+    void keepAliveTimeout() { d->stream->throwKeepAliveError(); }
+    void serverClosesStream() { Q_EMIT d->stream->d->socket.streamClosed(); }
     void streamStart() { d->stream->handleStart(); }
     void socketLost() { d->stream->_q_socketDisconnected(); }
     void streamDisconnect() { d->stream->disconnectFromHost(); }
@@ -623,6 +635,7 @@ struct NegEnv {
     QString bindId;
     bool connected = false;      // a session is established
     bool attempting = false;     // transport up and stream started, but no session yet
+    int discRoute = 0;           // which non-resumable route the next `disc` takes
     bool refResumable = false;   // script truth: the last session had stream management with resume='true' and was not ended orderly
     bool olderResumable = false; // an EARLIER session was resumable and nothing since told the client otherwise (orderly close,
                                  // <enabled/> without resume): the situation in which a stale belief can survive
@@ -715,8 +728,8 @@ struct NegEnv {
     {
         if (!attempting) return;
         c->inject(QL("<bogus xmlns='urn:verif:bogus'/>"));
-        fs->down(); attempting = false;
-        c->socketLost();
+        attempting = false;
+        if (fs->state() == QAbstractSocket::ConnectedState) { fs->down(); c->socketLost(); }   // (not reached: the stand-in reports at once)
         refResumable = false; olderResumable = false;
         mustAllBeCompleted("C07:neg:pending-after-aborted-attempt");
         line("ndisc");
@@ -735,9 +748,17 @@ struct NegEnv {
     void orderlyDisconnect()
     {
         if (!connected) return;
-        c->streamDisconnect();          // </stream:stream>, resumption given up
-        fs->down(); connected = false;
-        c->socketLost();                // the socket reports the disconnect
+        // every route that ends the session for good goes through QXmppOutgoingClient::disconnectFromHost(): resumption is given
+        // up, the socket is closed, and the socket reports disconnected() synchronously from inside that call
+        switch (discRoute++ % 5) {
+        case 0: c->disconnectFromServer(); vh::stat("neg_disc_application"); break;            // the application logs out
+        case 1: c->serverClosesStream(); vh::stat("neg_disc_server_stream_close"); break;      // </stream:stream> from the server
+        case 2: c->inject(QL("<bogus xmlns='urn:verif:bogus'/>")); vh::stat("neg_disc_rejected_element"); break;
+        case 3: c->keepAliveTimeout(); vh::stat("neg_disc_keepalive_timeout"); break;
+        default: c->streamDisconnect(); vh::stat("neg_disc_stream_disconnect"); break;
+        }
+        connected = false;
+        if (fs->state() == QAbstractSocket::ConnectedState) { fs->down(); c->socketLost(); }   // (not reached: the stand-in reports at once)
         refResumable = false; olderResumable = false;
         mustAllBeCompleted("C07:neg:pending-after-nonresumable-end");
         line("ndisc");
@@ -826,7 +847,9 @@ struct NegEnv {
 
 static void runNegSeq(const std::vector<std::string> &ops)
 {
+    static int seqNo = 0;
     NegEnv env;
+    env.discRoute = seqNo++;   // rotate the route of the first `disc` from sequence to sequence
     corr("reset neg me@own.org", "ok");
     for (auto &op : ops) env.apply(op);
     env.history += "destroy;";
@@ -1477,6 +1500,7 @@ int main(int argc, char **argv)
     runNegSeq({ "connR", "connN", "send", "loss" });
     runNegSeq({ "connF", "send", "loss", "begin", "abort" });       // seeded change C07_c1 (a): kept request, then an attempt the client aborts
     runNegSeq({ "begin", "send", "abort" });                        // seeded change C07_c1 (b): request issued while negotiating, attempt fails
+    for (int k = 0; k < 5; k++) runNegSeq({ "connF", "send", "disc" });   // seeded change C07_d2: resumable SM session ended for good, every route
     runNegSeq({ "connF", "send", "connF" });                        // seeded change C07_a1: refused resumption, new session WITH stream management
     runNegSeq({ "connF", "connR", "send", "connF" });               // seeded change C07_b1: 'resumed' of the previous session must not leak
     runNegSeq({ "connF", "send", "loss", "connR", "reply", "send", "loss", "connN" });
